@@ -4,6 +4,7 @@ import (
 	"fmt"
 	"go/token"
 	"go/types"
+	"strings"
 
 	"golang.org/x/tools/go/ssa"
 )
@@ -26,6 +27,12 @@ func (f *FnVC) execInstr(st *State, in ssa.Instruction) {
 		f.set(x, Val{T: r, Typ: x.Type()})
 		if !x.Heap {
 			st.Locals = append(st.Locals, f.objectRefs(r, t, 0)...)
+		}
+		// a named variable that lives in a cell: its source name denotes the cell's content in specifications
+		if x.Comment != "" && x.Comment != "complit" && x.Comment != "varargs" && !strings.Contains(x.Comment, " ") {
+			if _, isParam := f.params[x.Comment]; !isParam {
+				f.addrNames[x.Comment] = x
+			}
 		}
 	case *ssa.BinOp:
 		f.set(x, f.binop(st, x.Op, f.get(x.X), f.get(x.Y), x.Type(), x.Pos()))
